@@ -120,6 +120,19 @@ func (g *Gen) callCommon(in *ssa.Call, common *ssa.CallCommon, args []*SV, st *S
 				continue
 			}
 			env := g.envAt(st, nil)
+			// inside a loop, loopold(e) is e at the head of the current iteration (as in `iteration`
+			// clauses): "something happened in this very pass before the call"
+			if in != nil {
+				var inner *loopInfo
+				for _, li := range g.loops {
+					if li.blocks[in.Block()] && (inner == nil || len(li.blocks) < len(inner.blocks)) {
+						inner = li
+					}
+				}
+				if inner != nil {
+					env.loopOld = g.loopHeadState[inner]
+				}
+			}
 			// expose callee arguments as $0,$1,...
 			for i, a := range args {
 				if a.LV == nil && a.Tup == nil {
@@ -604,9 +617,13 @@ func (g *Gen) noteCallEpochs(callee *ssa.Function, st *State) {
 	// from the loop head inside a loop: the counters are not havoc'd there, so inside an iteration the
 	// value is a lower bound of the real count)
 	if cc := g.con.Opts["count-calls"]; cc != "" && callee != nil {
+		cname := callee.Name()
+		if i := strings.Index(cname, "["); i > 0 {
+			cname = cname[:i] // instance of a generic function: counted under the generic name
+		}
 		for _, n := range strings.Split(cc, ",") {
-			if strings.TrimSpace(n) == callee.Name() {
-				k := "lockn.calls." + callee.Name()
+			if strings.TrimSpace(n) == cname {
+				k := "lockn.calls." + cname
 				st.ghost[k] = "(+ " + g.ghostGet(st, k) + " 1)"
 			}
 		}
